@@ -15,6 +15,7 @@ import Alpaqa.Proofs.C12Penalty
 import Alpaqa.Proofs.C12Adjoint
 import Alpaqa.Proofs.C12Riccati
 import Alpaqa.Proofs.C12Optimal
+import Alpaqa.Proofs.C12Deriv
 import Mathlib.Tactic.NormNum
 import Mathlib.Algebra.Order.Field.Rat
 
@@ -257,18 +258,69 @@ theorem penalty_gradient (z z' m : α) (b : Bnd α × Bnd α) (hm : 0 ≤ m)
           - m * projDiff1 z b * (z' - z) ≤ 1 / 2 * m * (z' - z) ^ 2 :=
   penalty_grad_bound z z' m b hm hne
 
-/- `backward_is_gradient_partial` — full statement (DESIGN §6 C12), NOT proved here:
+/- `backward_is_gradient_partial` — general smooth problems, NOT proved here:
      under `HasFDerivAt` hypotheses on `f_t, h_t, ℓ_t, c_t` (with `jac t` = the Fréchet derivative
      of `f_t` at `(x_t,u_t)`, `eval_qr` = `Jhᵀ∇ℓ`, `eval_grad_constr_prod` = `Jcᵀ·`), the map
      `u ↦ (forward … u).2` has Fréchet derivative `δu ↦ ⟨(backward …).g, δu⟩`.
-   What is proved: `backward_adjoint` (the sweep equals the tangent-mode sensitivity for every
-   direction, every N) and `penalty_gradient` (the only non-smooth ingredient).  Missing: the chain
-   rule for the N-fold composition over `ℝ` (Mathlib `HasFDerivAt.comp` along `traj`), i.e. that the
-   tangent-mode sensitivity *is* the derivative.  On the real code this part is exercised by the
-   monitor of `checks/c12.py`, which differentiates the cost polynomial exactly (forward-mode
-   differentiation over `Fraction`s) and demands equality in the exact regime. -/
+   What is proved for every problem: `backward_adjoint` (the sweep equals the tangent-mode
+   sensitivity for every direction, every N) and `penalty_gradient` (the only non-smooth
+   ingredient).  What is proved for the class of affine-quadratic problems:
+   `backward_is_gradient_affquad` below (the chain rule over the N-fold composition is exact there).
+   Missing for general nonlinear `f_t, h_t, c_t`: the chain rule over `ℝ` (Mathlib
+   `HasFDerivAt.comp` along `traj`).  On the real code this part is exercised by the monitor of
+   `checks/c12.py`, which differentiates the cost polynomial exactly (forward-mode differentiation
+   over `Fraction`s, bilinear dynamics and quadratic constraints included) and demands equality in
+   the exact regime. -/
 
 end backward
+
+/-! ### 4b. `backward` = derivative of `forward` for affine-quadratic problems -/
+section deriv
+variable {α : Type} [Field α] [LinearOrder α] [IsStrictOrderedRing α]
+
+/-- **`backward_is_gradient_affquad`** — for the class of *affine-quadratic* optimal-control
+    problems (`AffQuad`, `Alpaqa/Proofs/C12Deriv.lean`: affine dynamics `f_t`, affine constraints
+    `c_t, c_N`, stage and terminal costs `ℓ_t∘h_t`, `ℓ_N∘h_N` quadratic in `(x, u)`, derivative
+    oracles `eval_grad_f_prod / eval_qr / eval_q_N / eval_grad_constr_prod(_N)` returning the
+    documented transposed-Jacobian products), every horizon, all dimensions, `μ > 0`, boxes with
+    infinite sides: the vector `g` that `backward` computes from the storage left by `forward` at the
+    inputs `U` is the derivative of the `forward` cost with respect to the inputs — for every
+    direction `δU` and every step `ε`,
+      `|forward(U + ε·δU) − forward(U) − ε·⟨g, δU⟩| ≤ K·ε²`,
+    `K = |quadPart δU| + penCap δU` independent of `ε` (taking `δU` a unit vector: every partial
+    derivative).  The chain rule over the `N`-fold composition is exact for this class
+    (`traj_affine`, `cost_expansion`); the ALM penalty is only `C¹`, its remainder is trapped in
+    `[0, ½ μ δζ²]` (`penalty_expand`). -/
+theorem backward_is_gradient_affquad (N nx nu nh nc nhN ncN : Nat) (P : OCP α)
+    (A : AffQuad P nx nu nh nc nhN ncN) (hw : WellDim P nx nh nc nhN ncN) (hg : GradDim P nx nu)
+    (D DN : Box α) (μ y st st' x0 : Vec α) (U δU : Nat → Vec α) (ε : α)
+    (hx0l : x0.length = nx) (hUl : ∀ t < N, (U t).length = nu) (hδl : ∀ t < N, (δU t).length = nu)
+    (hμl : μ.length = N * nc + ncN) (hyl : y.length = N * nc + ncN) (hμ : ∀ m ∈ μ, 0 < m)
+    (hDl : D.length = nc) (hDNl : DN.length = ncN)
+    (hD : ∀ bd ∈ D, ∀ l u, bd.1 = some l → bd.2 = some u → l ≤ u)
+    (hDN : ∀ bd ∈ DN, ∀ l u, bd.1 = some l → bd.2 = some u → l ≤ u)
+    (hlen : st.length = (OCPVars.ofProblem N nx nu nh nc nhN ncN).createSize)
+    (hx0 : getSeg st ((OCPVars.ofProblem N nx nu nh nc nhN ncN).xkStart 0)
+      ((OCPVars.ofProblem N nx nu nh nc nhN ncN).xkLen 0) = x0)
+    (hU : ∀ t < N, getSeg st ((OCPVars.ofProblem N nx nu nh nc nhN ncN).ukStart t)
+      ((OCPVars.ofProblem N nx nu nh nc nhN ncN).ukLen t) = U t)
+    (hlen' : st'.length = (OCPVars.ofProblem N nx nu nh nc nhN ncN).createSize)
+    (hx0' : getSeg st' ((OCPVars.ofProblem N nx nu nh nc nhN ncN).xkStart 0)
+      ((OCPVars.ofProblem N nx nu nh nc nhN ncN).xkLen 0) = x0)
+    (hU' : ∀ t < N, getSeg st' ((OCPVars.ofProblem N nx nu nh nc nhN ncN).ukStart t)
+      ((OCPVars.ofProblem N nx nu nh nc nhN ncN).ukLen t) = vadd (U t) (smul ε (δU t))) :
+    |(forward P (OCPVars.ofProblem N nx nu nh nc nhN ncN) D DN μ y st').2
+        - (forward P (OCPVars.ofProblem N nx nu nh nc nhN ncN) D DN μ y st).2
+        - ε * dot (backward P (OCPVars.ofProblem N nx nu nh nc nhN ncN) D DN μ y
+              (forward P (OCPVars.ofProblem N nx nu nh nc nhN ncN) D DN μ y st).1).g
+            ((List.range N).map δU).flatten|
+      ≤ (|quadPart N nx nu nh nc nhN ncN P A δU| + penCap N nx nu nh nc nhN ncN P A μ δU) * ε ^ 2 := by
+  obtain ⟨inv, hhN, hcN⟩ := forward_storage_spec N nx nu nh nc nhN ncN P hw D DN μ y st x0 U hlen hx0 hU
+  rw [forward_eq_spec N nx nu nh nc nhN ncN P hw D DN μ y st x0 U hlen hx0 hU,
+    forward_eq_spec N nx nu nh nc nhN ncN P hw D DN μ y st' x0 _ hlen' hx0' hU']
+  exact cost_directional_derivative N nx nu nh nc nhN ncN P A hw hg D DN μ y _ x0 U δU hx0l hUl hδl
+    hμl hyl hμ hDl hDNl hD hDN inv hhN hcN ε
+end deriv
 
 /-! ### 5. `factor_masked` + `solve_masked` return a KKT point of the masked QP -/
 section riccati
@@ -473,6 +525,187 @@ example (w : Fin 1 → ℚ) (hw : w ≠ 0) :
   have : (0 : ℚ) < w 0 * w 0 := mul_self_pos.mpr h0
   simp
   nlinarith
+
+/-! #### a two-stage instance with mixed masks: `N = 2`, `nx = 1`, `nu = 2`;
+    stage 0 has `J = [0]`, `K = [1]` (one free, one fixed input), stage 1 has every input fixed. -/
+
+def exSt0 : LQRStage ℚ :=
+  { A := [[1]], B := [[1, 2]], Q := [[1]], R := [[2, 1], [1, 3]], S := [[1], [1 / 2]], q := [1],
+    r := [1, -1], u := [5, 3], J := [0], K := [1] }
+def exSt1 : LQRStage ℚ :=
+  { A := [[2]], B := [[1, 1]], Q := [[2]], R := [[1, 0], [0, 1]], S := [[1], [1]], q := [0],
+    r := [1, 1], u := [1, -2], J := [], K := [0, 1] }
+def exData2 (i : Nat) : LQRStage ℚ := if i = 0 then exSt0 else exSt1
+/-- exact solve oracle for the (0×0 and 1×1) reduced Hessians of this instance -/
+def exSolveM2 (R B : Mat ℚ) : Mat ℚ := mkM R.length 1 fun i j => mget B i j / mget R i i
+def exSolveV2 (R : Mat ℚ) (b : Vec ℚ) : Vec ℚ := mkV R.length fun i => vget b i / mget R i i
+
+theorem ex2_part : ∀ i < 2, ((exData2 i).J ++ (exData2 i).K).Perm (List.range 2) := by
+  intro i hi
+  have : i = 0 ∨ i = 1 := by omega
+  rcases this with rfl | rfl <;> decide
+theorem symM_one (M : Mat ℚ) : SymM 1 M := by
+  unfold SymM; ext i j; fin_cases i; fin_cases j; rfl
+theorem ex2_Q : ∀ i < 2, SymM 1 (exData2 i).Q := fun _ _ => symM_one _
+theorem ex2_R : ∀ i < 2, ∀ a < 2, ∀ b < 2, mget (exData2 i).R a b = mget (exData2 i).R b a := by
+  intro i hi a ha b hb
+  have h1 : i = 0 ∨ i = 1 := by omega
+  have h2 : a = 0 ∨ a = 1 := by omega
+  have h3 : b = 0 ∨ b = 1 := by omega
+  rcases h1 with rfl | rfl <;> rcases h2 with rfl | rfl <;> rcases h3 with rfl | rfl <;> rfl
+theorem ex2_solve : ∀ i < 2, SolveOK 1 2 exSolveM2 exSolveV2 (exData2 i)
+    (ricStg 2 1 2 exSolveM2 exSolveV2 exData2 [[1]] [1] i).Pn
+    (ricStg 2 1 2 exSolveM2 exSolveV2 exData2 [[1]] [1] i).sn := by
+  intro i hi
+  have : i = 0 ∨ i = 1 := by omega
+  rcases this with rfl | rfl <;> (unfold SolveOK; decide +kernel)
+/-- a positive 1×1 matrix is positive definite -/
+theorem pd_one (c : ℚ) (hc : 0 < c) (w : Fin 1 → ℚ) (hw : w ≠ 0) : 0 < bil (toM 1 1 [[c]]) w w := by
+  have h0 : w 0 ≠ 0 := by
+    intro h; apply hw; ext i; fin_cases i; exact h
+  simp only [bil, Matrix.mulVec, dotProduct, Finset.univ_unique, Fin.default_eq_zero,
+    Finset.sum_singleton, toM, mget]
+  have : (0 : ℚ) < w 0 * w 0 := mul_self_pos.mpr h0
+  simp
+  nlinarith
+/-- reduced input Hessians: `R̄₀ = R₀[0,0] + B₀[:,0]ᵀ P₁ B₀[:,0] = 2 + 6 = 8 ≻ 0`; `R̄₁` is 0×0. -/
+theorem ex2_PD : ∀ t < 2, ∀ w : Fin (exData2 t).J.length → ℚ, w ≠ 0 →
+    0 < bil (toM (exData2 t).J.length (exData2 t).J.length
+      (ricStg 2 1 2 exSolveM2 exSolveV2 exData2 [[1]] [1] t).Rbar) w w := by
+  intro t ht
+  have : t = 0 ∨ t = 1 := by omega
+  rcases this with rfl | rfl
+  · intro w hw
+    have hR : (ricStg 2 1 2 exSolveM2 exSolveV2 exData2 [[1]] [1] 0).Rbar = [[8]] := by decide +kernel
+    rw [hR]
+    exact pd_one 8 (by norm_num) w hw
+  · intro w hw
+    exfalso; apply hw; ext i; exact i.elim0
+
+/-- the step of that instance: `Δu₀ = (−39/8, 3)` (free component from the recursion, fixed one at
+    its prescribed value), `Δu₁ = (1, −2)` (all fixed), `Δx = 0, 9/8, 5/4`. -/
+example : (List.range 2).map (ricDu 2 1 2 exSolveM2 exSolveV2 exData2 [[1]] [1]) = [[-39 / 8, 3], [1, -2]] ∧
+    (List.range 3).map (ricDx 2 1 2 exSolveM2 exSolveV2 exData2 [[1]] [1]) = [[0], [9 / 8], [5 / 4]] := by
+  decide +kernel
+
+/-- `riccati_kkt`, `riccati_optimal`, `riccati_unique` applied to it, every hypothesis discharged. -/
+example := riccati_kkt 2 1 2 exSolveM2 exSolveV2 exData2 [[1]] [1] ex2_part ex2_Q (symM_one _) ex2_R ex2_solve
+example := riccati_optimal 2 1 2 exSolveM2 exSolveV2 exData2 [[1]] [1] ex2_part ex2_Q (symM_one _) ex2_R ex2_solve
+  (fun t ht w => by
+    by_cases hw : w = 0
+    · subst hw; simp [bil]
+    · exact (ex2_PD t ht w hw).le)
+example := riccati_unique 2 1 2 exSolveM2 exSolveV2 exData2 [[1]] [1] ex2_part ex2_Q (symM_one _) ex2_R ex2_solve
+  ex2_PD _ _
+  (riccati_optimal 2 1 2 exSolveM2 exSolveV2 exData2 [[1]] [1] ex2_part ex2_Q (symM_one _) ex2_R ex2_solve
+    (fun t ht w => by
+      by_cases hw : w = 0
+      · subst hw; simp [bil]
+      · exact (ex2_PD t ht w hw).le)).1 rfl
+
+/-! #### the affine-quadratic class is inhabited; `backward_is_gradient_affquad` applied -/
+
+theorem getD_smul0 (ε : ℚ) (a : Vec ℚ) : (smul ε a).getD 0 0 = ε * a.getD 0 0 := by
+  cases a <;> simp [smul]
+
+/-- the scalar problem `exOCP` (`x⁺ = 2x + u`, `h = x + u`, `ℓ = ½h²`, `c = x`) is affine-quadratic:
+    `jac(a, b) = 2a + b`, `cJ(a) = a`, second-order parts `½(a + b)²` and `½a²`. -/
+def exAQ : AffQuad exOCP 1 1 1 1 1 1 where
+  jac _ a b := [2 * a.getD 0 0 + b.getD 0 0]
+  cJ _ a := [a.getD 0 0]
+  cJN a := [a.getD 0 0]
+  lq _ a b := 1 / 2 * (a.getD 0 0 + b.getD 0 0) ^ 2
+  lqN a := 1 / 2 * (a.getD 0 0) ^ 2
+  jac_len _ _ _ _ _ := rfl
+  cJ_len _ _ _ := rfl
+  cJN_len _ _ := rfl
+  f_aff t x u a b hx hu ha hb := by
+    obtain ⟨x, rfl⟩ := List.length_eq_one_iff.mp hx
+    obtain ⟨u, rfl⟩ := List.length_eq_one_iff.mp hu
+    obtain ⟨a, rfl⟩ := List.length_eq_one_iff.mp ha
+    obtain ⟨b, rfl⟩ := List.length_eq_one_iff.mp hb
+    simp [exOCP, vadd, vzip]; ring
+  f_adj t x u lam a b hl ha hb := by
+    obtain ⟨l, rfl⟩ := List.length_eq_one_iff.mp hl
+    obtain ⟨a, rfl⟩ := List.length_eq_one_iff.mp ha
+    obtain ⟨b, rfl⟩ := List.length_eq_one_iff.mp hb
+    simp [exOCP, dot_cons]; ring
+  l_quad t x u a b hx hu ha hb := by
+    obtain ⟨x, rfl⟩ := List.length_eq_one_iff.mp hx
+    obtain ⟨u, rfl⟩ := List.length_eq_one_iff.mp hu
+    obtain ⟨a, rfl⟩ := List.length_eq_one_iff.mp ha
+    obtain ⟨b, rfl⟩ := List.length_eq_one_iff.mp hb
+    simp [exOCP, stageL, stageH, vadd, vzip, dot_cons]; ring
+  lN_quad x a hx ha := by
+    obtain ⟨x, rfl⟩ := List.length_eq_one_iff.mp hx
+    obtain ⟨a, rfl⟩ := List.length_eq_one_iff.mp ha
+    simp [exOCP, termL, termH, vadd, vzip, dot_cons]; ring
+  c_aff t x a hx ha := by
+    obtain ⟨x, rfl⟩ := List.length_eq_one_iff.mp hx
+    obtain ⟨a, rfl⟩ := List.length_eq_one_iff.mp ha
+    simp [exOCP, vadd, vzip]
+  c_adj t x p a hp ha := by
+    obtain ⟨p, rfl⟩ := List.length_eq_one_iff.mp hp
+    obtain ⟨a, rfl⟩ := List.length_eq_one_iff.mp ha
+    simp [exOCP, dot_cons]
+  cN_aff x a hx ha := by
+    obtain ⟨x, rfl⟩ := List.length_eq_one_iff.mp hx
+    obtain ⟨a, rfl⟩ := List.length_eq_one_iff.mp ha
+    simp [exOCP, vadd, vzip]
+  cN_adj x p a hp ha := by
+    obtain ⟨p, rfl⟩ := List.length_eq_one_iff.mp hp
+    obtain ⟨a, rfl⟩ := List.length_eq_one_iff.mp ha
+    simp [exOCP, dot_cons]
+  jac_smul t ε a b := by
+    show [2 * (smul ε a).getD 0 0 + (smul ε b).getD 0 0] = smul ε [2 * a.getD 0 0 + b.getD 0 0]
+    rw [getD_smul0, getD_smul0]; simp only [smul, List.map_cons, List.map_nil]; congr 1; ring
+  cJ_smul t ε a := by
+    show [(smul ε a).getD 0 0] = smul ε [a.getD 0 0]
+    rw [getD_smul0]; rfl
+  cJN_smul ε a := by
+    show [(smul ε a).getD 0 0] = smul ε [a.getD 0 0]
+    rw [getD_smul0]; rfl
+  lq_smul t ε a b := by simp only [getD_smul0]; ring
+  lqN_smul ε a := by simp only [getD_smul0]; ring
+
+/-- `backward_is_gradient_affquad` on that problem, `N = 2`, storage of the `forward_eq_spec`
+    example (`x₀ = 1`, `u = (−1, ½)`), direction `δu = (1, −2)`, every step `ε`: all hypotheses
+    discharged. -/
+example (ε : ℚ) :=
+  backward_is_gradient_affquad 2 1 1 1 1 1 1 exOCP exAQ
+    ⟨fun _ _ _ => rfl, fun _ _ _ => rfl, fun _ => rfl, fun _ _ => rfl, fun _ => rfl⟩
+    ⟨fun _ _ _ _ => rfl, fun _ _ _ => rfl, fun _ _ => rfl, fun _ _ _ => rfl, fun _ _ => rfl⟩
+    [(some 0, some 1)] [(none, some 1)] [1, 2, 4] [0, 1, 0]
+    [1, -1, 0, 0, 0, 1 / 2, 0, 0, 0, 0, 0]
+    [1, -1 + ε * 1, 0, 0, 0, 1 / 2 + ε * (-2), 0, 0, 0, 0, 0] [1]
+    (fun t => if t = 0 then [-1] else [1 / 2]) (fun t => if t = 0 then [1] else [-2]) ε
+    rfl (fun t _ => by split_ifs <;> rfl) (fun t _ => by split_ifs <;> rfl) rfl rfl
+    (by intro m hm; simp at hm; rcases hm with rfl | rfl | rfl <;> norm_num) rfl rfl
+    (by intro bd hbd l u h1 h2; simp at hbd; subst hbd; cases h1; cases h2; norm_num)
+    (by intro bd hbd l u h1 h2; simp at hbd; subst hbd; cases h1)
+    rfl rfl
+    (by intro t ht; have : t = 0 ∨ t = 1 := by omega
+        rcases this with rfl | rfl <;> rfl)
+    rfl rfl
+    (by intro t ht; have : t = 0 ∨ t = 1 := by omega
+        rcases this with rfl | rfl <;> rfl)
+
+/-- the numbers of that instance at `ε = 1/4`: `V(U) = 9`, `g = (39/2, 10)`, `⟨g, δu⟩ = −1/2`,
+    `V(U + ε δu) = 9`, so the remainder is `1/8 = (|quadPart| + penCap)·ε² = (1 + 1)/16`: the bound
+    is attained. -/
+example :
+    (forward exOCP (OCPVars.ofProblem 2 1 1 1 1 1 1) [(some 0, some 1)] [(none, some 1)] [1, 2, 4] [0, 1, 0]
+        [1, -1, 0, 0, 0, 1 / 2, 0, 0, 0, 0, 0]).2 = 9 ∧
+    (backward exOCP (OCPVars.ofProblem 2 1 1 1 1 1 1) [(some 0, some 1)] [(none, some 1)] [1, 2, 4] [0, 1, 0]
+        (forward exOCP (OCPVars.ofProblem 2 1 1 1 1 1 1) [(some 0, some 1)] [(none, some 1)] [1, 2, 4] [0, 1, 0]
+          [1, -1, 0, 0, 0, 1 / 2, 0, 0, 0, 0, 0]).1).g = [39 / 2, 10] ∧
+    (forward exOCP (OCPVars.ofProblem 2 1 1 1 1 1 1) [(some 0, some 1)] [(none, some 1)] [1, 2, 4] [0, 1, 0]
+        [1, -1 + 1 / 4 * 1, 0, 0, 0, 1 / 2 + 1 / 4 * (-2), 0, 0, 0, 0, 0]).2 = 9 := by
+  decide +kernel
+example : quadPart 2 1 1 1 1 1 1 exOCP exAQ (fun t => if t = 0 then [(1:ℚ)] else [-2]) = 1 ∧
+    penCap 2 1 1 1 1 1 1 exOCP exAQ [1, 2, 4] (fun t => if t = 0 then [(1:ℚ)] else [-2]) = 1 := by
+  simp only [quadPart, penCap, Finset.sum_range_succ, Finset.sum_range_zero]
+  decide +kernel
 
 end examples
 
